@@ -6,6 +6,7 @@ package main
 
 import (
 	"encoding/json"
+	"math/rand"
 	"fmt"
 	"os"
 	"path/filepath"
@@ -15,6 +16,9 @@ import (
 	"syscall"
 	"testing"
 	"time"
+
+	concrete "github.com/whawty/auth/verifconcrete"
+	lib "github.com/whawty/auth/store"
 )
 
 type hStep struct {
@@ -28,6 +32,7 @@ type hScenario struct {
 	Name  string  `json:"name"`
 	Steps []hStep `json:"steps"`
 	Hang  bool    `json:"hang"`
+	Agent bool    `json:"agent"` // drive a real agent (dispatcher + hooks caller): changes through the API, reloads by SIGHUP
 }
 
 type hEntry struct {
@@ -39,6 +44,8 @@ type hEntry struct {
 }
 
 const hRate = 180 * time.Millisecond
+
+var reloadSeen = make(chan string, 8)
 
 func writeScript(path, log string, mode os.FileMode, body string) {
 	os.WriteFile(path, []byte("#!/bin/sh\necho \"$(basename $0)|$*|$WHAWTY_AUTH_STORE\" >> "+log+"\n"+body), 0700)
@@ -69,7 +76,21 @@ func TestVerifHooks(t *testing.T) {
 		mu.Unlock()
 	}
 	verifHold = gt.hold
+	mine := func(path string) bool { // hooks callers of earlier scenarios wake up once more when SIGHUP reaches their dispatcher
+		cb, _ := curBase.Load().(string)
+		return cb == "" || strings.HasPrefix(path, cb)
+	}
 	verifSink = func(ev string, args ...interface{}) {
+		switch ev {
+		case "hooks.newstore", "hooks.run":
+			if !mine(args[0].(string)) {
+				return
+			}
+		case "hooks.exec":
+			if !mine(args[1].(string)) {
+				return
+			}
+		}
 		switch ev {
 		case "hooks.notify", "hooks.timer":
 			emit(strings.Replace(ev, "hooks.", "h", 1), "", int(args[0].(uint)))
@@ -79,10 +100,23 @@ func TestVerifHooks(t *testing.T) {
 			emit("hrun", filepath.Base(args[0].(string)), int(args[1].(uint)))
 		case "hooks.exec":
 			emit("hexec", filepath.Base(args[1].(string))+"|"+filepath.Base(args[0].(string)), 0)
+		case "reload.ok", "reload.fail":
+			if d, ok := args[1].(*lib.Dir); ok && d != nil {
+				if cb, _ := curBase.Load().(string); cb != "" && strings.HasPrefix(d.BaseDir, cb) {
+					if ev == "reload.ok" { // the dispatcher has switched (linearization point); its send to the loop follows
+						emit("reload", filepath.Base(d.BaseDir), 0)
+					}
+					select {
+					case reloadSeen <- ev:
+					default:
+					}
+				}
+			}
 		}
 	}
 	results := map[string]interface{}{}
 	var scenRes []map[string]interface{}
+	sets := concrete.DefaultSets()
 	for si, sc := range input.Scenarios {
 		gt.newGeneration()
 		dir := filepath.Join(scratch, fmt.Sprintf("h%d", si))
@@ -96,8 +130,62 @@ func TestVerifHooks(t *testing.T) {
 			body = "sleep 300\n"
 		}
 		writeScript(filepath.Join(hooks, "20-second"), log, 0755, body)
-		h := &HooksCaller{Notify: make(chan bool, 32), NewStore: make(chan string, 1), dir: hooks, store: filepath.Join(dir, "A"), rateLimit: hRate}
-		go h.run()
+		curBase.Store(dir)
+		var h *HooksCaller
+		var api *Store
+		cfgfile := filepath.Join(dir, "store.yaml")
+		writeCfg := func(name string) {
+			os.WriteFile(cfgfile, []byte(concrete.ConfigYAML(filepath.Join(dir, name), 1, sets, []uint{1, 2})), 0600)
+		}
+		nuser := 0
+		if sc.Agent {
+			rng := rand.New(rand.NewSource(int64(si)))
+			for _, name := range []string{"A", "B", "C"} {
+				os.MkdirAll(filepath.Join(dir, name), 0700)
+				line, _ := concrete.MakeRecord(sets[1], []byte("pw"), 1500000000, rng)
+				os.WriteFile(filepath.Join(dir, name, "boss.admin"), []byte(line), 0600)
+			}
+			writeCfg("A")
+			curBase.Store(dir)
+			st, err := NewStore(cfgfile, "", "", "", hooks)
+			if err != nil {
+				t.Fatal(err)
+			}
+			st.hooks.rateLimit = hRate
+			h = st.hooks
+			api = st.GetInterface()
+		} else {
+			h = &HooksCaller{Notify: make(chan bool, 32), NewStore: make(chan string, 1), dir: hooks, store: filepath.Join(dir, "A"), rateLimit: hRate}
+			go h.run()
+		}
+		// one change / reload of the real agent
+		agentChange := func(cur string) bool {
+			nuser++
+			done := make(chan error, 1)
+			go func(n int) { done <- api.Add(fmt.Sprintf("user%d", n), "some password", false) }(nuser)
+			select {
+			case err := <-done:
+				if err != nil {
+					t.Fatalf("add through the agent failed: %v", err)
+				}
+				return false
+			case <-time.After(5 * time.Second):
+				return true
+			}
+		}
+		agentReload := func(name string) bool {
+			for len(reloadSeen) > 0 {
+				<-reloadSeen
+			}
+			writeCfg(name)
+			syscall.Kill(os.Getpid(), syscall.SIGHUP)
+			select {
+			case <-reloadSeen: // the dispatcher has switched; its send to the hooks caller may still be blocked
+				return false
+			case <-time.After(5 * time.Second):
+				return true
+			}
+		}
 		mu.Lock()
 		first := len(events)
 		mu.Unlock()
@@ -108,6 +196,10 @@ func TestVerifHooks(t *testing.T) {
 			switch s.T {
 			case "change":
 				emit("change", cur, 0)
+				if sc.Agent {
+					blocked = agentChange(cur) || blocked
+					continue
+				}
 				select {
 				case h.Notify <- true:
 				case <-time.After(2 * time.Second):
@@ -116,6 +208,10 @@ func TestVerifHooks(t *testing.T) {
 			case "burst":
 				for i := 0; i < s.N; i++ {
 					emit("change", cur, 0)
+					if sc.Agent {
+						blocked = agentChange(cur) || blocked
+						continue
+					}
 					select {
 					case h.Notify <- true:
 					case <-time.After(2 * time.Second):
@@ -124,6 +220,10 @@ func TestVerifHooks(t *testing.T) {
 				}
 			case "reload":
 				cur = s.S
+				if sc.Agent {
+					blocked = agentReload(cur) || blocked
+					continue
+				}
 				emit("reload", cur, 0)
 				select {
 				case h.NewStore <- filepath.Join(dir, cur):
